@@ -54,6 +54,10 @@ func uniqueNames(text string) (string, bool) {
 type c14Boundary struct {
 	line   int
 	indent string
+	// expression cursor: the modified text and column are given directly
+	expr bool
+	mod  string
+	col  int
 }
 
 func c14Boundaries(text string) []c14Boundary {
@@ -77,7 +81,7 @@ func c14Boundaries(text string) []c14Boundary {
 		if luaref.Parse(strings.Join(nl, "\n")+"\n").Err != nil {
 			continue
 		}
-		out = append(out, c14Boundary{L, ind})
+		out = append(out, c14Boundary{line: L, indent: ind})
 	}
 	return out
 }
@@ -113,10 +117,27 @@ func c14Space(d scopeSpaceDef) *core.Space {
 			if len(bs) > 2 {
 				r.Nontrivial++
 			}
+			// cursors inside expressions: every read of a variable is replaced by the prefix v (until conditions,
+			// loop bounds, initialisers, call arguments, ...)
+			if pb := luaref.Parse(text); pb.Err == nil {
+				for _, o := range luaref.Bind(pb.Chunk).Occs {
+					if o.Kind != "read" || !strings.HasPrefix(o.Name, "v") {
+						continue
+					}
+					modE := text[:o.Start] + "v" + text[o.End:]
+					ln := strings.Count(text[:o.Start], "\n")
+					colE := o.Start - (strings.LastIndex(text[:o.Start], "\n") + 1)
+					bs = append(bs, c14Boundary{line: ln, indent: "", expr: true, mod: modE, col: colE + 1})
+				}
+			}
 			for _, bd := range bs {
 				// insert "print(v)" as a new line at the boundary
 				nl := append(append(append([]string{}, lines[:bd.line]...), bd.indent+"print(v)"), lines[bd.line:]...)
 				mod := strings.Join(nl, "\n") + "\n"
+				if bd.expr {
+					mod = bd.mod
+					nl = strings.Split(strings.TrimSuffix(mod, "\n"), "\n")
+				}
 				pm := luaref.Parse(mod)
 				if pm.Err != nil {
 					r.Fail(d.name, i, "harness-insertion-not-valid", mod, map[string]interface{}{"text": mod, "error": pm.Err.Error()})
@@ -124,6 +145,9 @@ func c14Space(d scopeSpaceDef) *core.Space {
 				}
 				bm := luaref.Bind(pm.Chunk)
 				col := len(bd.indent) + 7
+				if bd.expr {
+					col = bd.col
+				}
 				// offset of the cursor (just behind the v)
 				off := 0
 				for k := 0; k < bd.line; k++ {
@@ -221,6 +245,9 @@ func c14Space(d scopeSpaceDef) *core.Space {
 					next = strings.TrimSpace(nl[bd.line+1])
 				}
 				coreS := fmt.Sprintf("%s | after [%s] before [%s] | %s", sig, prev, next, strings.Join(parts, " ; "))
+				if bd.expr {
+					coreS = fmt.Sprintf("%s | in [%s] col %d | %s", sig, strings.TrimSpace(nl[bd.line]), col-(len(nl[bd.line])-len(strings.TrimLeft(nl[bd.line], " "))), strings.Join(parts, " ; "))
+				}
 				r.Fail(d.name, i, sig, coreS, map[string]interface{}{"failure_core": coreS, "buffer": mod, "cursor": fmt.Sprintf("%d:%d", bd.line, col),
 					"missing": missing, "offered_but_not_in_scope": spurious, "o.lua": c14Other})
 			}
